@@ -292,6 +292,27 @@ def refuse(R, RID='C08.refuse'):
                  'refusal raises %s' % sorted(toks), func=q, node=rn.ast)
     data = c.args[0] if c.args else None
     R.ob(RID, 'write sends its argument', data is not None and is_param(rd, n, data), '%s' % U(c), func=q, node=c)
+    # ... and a frame is refused for no other reason: close() swallows the refusal of its Close frame and enters the closing
+    # state regardless, so a new refusal (before Ready, while busy ...) means a close() that writes nothing, after which the
+    # server's own Close is taken for the reply
+    allowed = ('self.websocket.is_closed', 'self.websocket.is_closing', 'self.websocket.state.closed', 'self.websocket.state.closing',
+               'self._sock is None')
+    for fq in (S + '.send', S + '.send_compressed', q):
+        if fq not in R.prog.funcs:
+            continue
+        gg = R.cfg(fq)
+        rdg = ReachingDefs(gg)
+        for rn in [m for m in gg.live_nodes() if m.kind == 'stmt' and isinstance(m.ast, ast.Raise) and m.ast.exc is not None]:
+            if any(fr.kind == 'handler' for fr in rn.frames):
+                continue                    # a transport failure being converted
+            bad = []
+            for l in path_conditions(R, gg, rdg, gg.entry, rn):
+                if not any((a, True) in l for a in allowed) and ('self._sock is not None', False) not in l and ('self._sock', False) not in l:
+                    bad.append(sorted(x[0] for x in l if x[1])[:4])
+            R.ob(RID, 'a frame is refused only when closed, closing or not connected (%s)' % fq.rsplit('.', 1)[1], not bad,
+                 '%s() refuses to send under %s: close() swallows the refusal of its Close frame and still enters the closing '
+                 'state, so nothing is written and the server\'s own Close is then reported as the reply' % (fq.rsplit('.', 1)[1], bad[:1]),
+                 func=fq, node=rn.ast, construct='%s refusal %s' % (fq, U(rn.ast.exc)[:40]))
 
 
 def server(R):
